@@ -9,6 +9,8 @@ from typing import Any, Dict, List, Optional, Tuple
 
 from perception_eval.common import threshold as th
 
+from perception_eval.common.evaluation_task import EvaluationTask
+
 from ..core import Ctx, Taps, guarded, jsonable
 
 LEVEL_TEXT = (
@@ -32,7 +34,7 @@ RULE = (
     "config; distinct = (n, nest, shape class, verdict) resp. (task, edit kinds, verdict)"
 )
 ASSUMPTIONS = ["bool is not generated as a threshold entry", "a flat list whose length equals the number of labels may be read per label or per threshold (both normal forms accepted)"]
-DECIDING = ["set_thresholds.checked", "C15.threshold_specs", "C15.threshold_rejected", "C15.threshold_accepted", "C15.idempotence_checked", "C15.configs_accepted", "C15.configs_rejected", "C15.must_reject_checked", "C15.exposed_lists_checked", "C15.reuse_checked", "C15.valid_frame_configs_checked"]
+DECIDING = ["set_thresholds.checked", "C15.threshold_specs", "C15.threshold_rejected", "C15.threshold_accepted", "C15.idempotence_checked", "C15.configs_accepted", "C15.configs_rejected", "C15.must_reject_checked", "C15.exposed_lists_checked", "C15.reuse_checked", "C15.valid_frame_configs_checked", "C15.metrics_configs_checked"]
 JOBS = {"quick": 2, "thorough": 8}
 
 
@@ -415,6 +417,34 @@ def drive_configs(ctx: Ctx) -> None:
             v = val() if k.startswith("center") or k.startswith("plane") else round(r.uniform(0.1, 0.9), 2)
             cfg[k] = {"scalar": v, "flat": [v, v / 2], "nested_full": [[v] * n_, [v / 2] * n_], "nested_single": [[v], [v / 2]]}[shape]
         try_config(ctx, "perception", cfg, frame, [], i, "configs_merged")
+    # the metrics configuration given directly: valid parameters are accepted for every task, one unknown parameter
+    # makes it reject (this is the level at which the library does check parameter names, cf. known finding D9)
+    from perception_eval.common.label import AutowareLabel as _AL
+    from perception_eval.evaluation.metrics.metrics_score_config import MetricsScoreConfig
+
+    for i in ctx.indices("metrics_configs", 60 if ctx.quick else 3000):
+        r = ctx.rng("metrics_configs", i)
+        task = r.choice([EvaluationTask.DETECTION, EvaluationTask.TRACKING, EvaluationTask.DETECTION2D, EvaluationTask.TRACKING2D, EvaluationTask.CLASSIFICATION2D])
+        labels = r.sample([_AL.CAR, _AL.BUS, _AL.PEDESTRIAN, _AL.BICYCLE], r.randint(1, 3))
+        params: Dict[str, Any] = dict(target_labels=labels)
+        if task != EvaluationTask.CLASSIFICATION2D:
+            params.update(center_distance_thresholds=[1.0], iou_2d_thresholds=[0.5])
+            if task.is_3d():
+                params.update(plane_distance_thresholds=[2.0], iou_3d_thresholds=[0.5])
+            elif task == EvaluationTask.TRACKING2D:
+                params.update(plane_distance_thresholds=None, iou_3d_thresholds=None)  # named by the tracking config, unused in 2D
+        unknown = r.choice([None, "iou_bev_thresholds", "foo", "center_distance_threshold", "target_label"])
+        if unknown is not None:
+            params[unknown] = [0.5]
+        ctx.begin_case("metrics_configs", i, task=task.value, unknown=unknown)
+        ctx.count("C15.metrics_configs_checked")
+        try:
+            MetricsScoreConfig(task, **params)
+            accepted = True
+        except Exception:  # noqa: BLE001
+            accepted = False
+        ctx.check(accepted == (unknown is None), "C15/metrics_config_accepts_unknown_or_rejects_valid_parameters", dict(task=task.value, unknown=unknown, accepted=accepted), "config")
+        ctx.case(("metrics_config", task.value, unknown is None), nontrivial=unknown is not None)
     # frame configs on top of a valid evaluation config
     from perception_eval.config import PerceptionEvaluationConfig
     from perception_eval.evaluation.result.perception_frame_config import CriticalObjectFilterConfig, PerceptionPassFailConfig
